@@ -22,7 +22,8 @@ def run_case(case, taps='all'):
         return M.run_mux(case['pipe'], case['src'], timescale=case.get('timescale'), taps=taps,
                          dl_late=case.get('dl_late', False), share_ops=case.get('share_ops', False),
                          warmup=case.get('warmup'), store_split=case.get('store_split'),
-                         feedback=case.get('feedback'), reapply=case.get('reapply', False))
+                         feedback=case.get('feedback'), reapply=case.get('reapply', False),
+                         warmup_completes=case.get('warmup_completes', False))
     if mode == 'src':
         return M.run_src(case['pipe'], case['src'], complete=case.get('complete', True),
                          timescale=case.get('timescale'), taps=taps, root=case.get('root', 'store'),
@@ -172,7 +173,7 @@ def judge(V, cases, relevant, stats, family='', keep_traces=None, isolation=None
                          'mode': tr['mode'], 'src': tr['src'],
                          'timescale': cases[i].get('timescale'), 'multi': cases[i].get('multi'),
                          'root': cases[i].get('root', 'store'), 'dl_late': cases[i].get('dl_late', False),
-                         'share_ops': cases[i].get('share_ops', False), 'warmup': cases[i].get('warmup'), 'reapply': cases[i].get('reapply', False), 'store_split': cases[i].get('store_split'), 'feedback': cases[i].get('feedback'), 'source': cases[i].get('source'), 'sibling': cases[i].get('sibling', False),
+                         'share_ops': cases[i].get('share_ops', False), 'warmup': cases[i].get('warmup'), 'reapply': cases[i].get('reapply', False), 'warmup_completes': cases[i].get('warmup_completes', False), 'store_split': cases[i].get('store_split'), 'feedback': cases[i].get('feedback'), 'source': cases[i].get('source'), 'sibling': cases[i].get('sibling', False),
                          'clauses': ['%s:%s' % pn for pn in names]},
                         '+'.join(sorted({n for _, n in mine})),
                         detail='first rejected at source step %s' % step)
@@ -184,7 +185,7 @@ def judge(V, cases, relevant, stats, family='', keep_traces=None, isolation=None
                          'pipe': json.dumps(tr['pipe'], sort_keys=True), 'mode': tr['mode'], 'src': tr['src'],
                          'timescale': c.get('timescale'), 'root': c.get('root', 'store'),
                          'dl_late': c.get('dl_late', False), 'share_ops': c.get('share_ops', False),
-                         'warmup': c.get('warmup'), 'reapply': c.get('reapply', False), 'store_split': c.get('store_split'),
+                         'warmup': c.get('warmup'), 'reapply': c.get('reapply', False), 'warmup_completes': c.get('warmup_completes', False), 'store_split': c.get('store_split'),
                          'feedback': c.get('feedback'), 'source': c.get('source'), 'sibling': c.get('sibling', False), 'source_lost': True, 'clauses': ['source-events-lost']},
                         'source-events-lost', detail=lost)
     stats['rejected'] = stats.get('rejected', 0) + len(rejected)
@@ -206,7 +207,7 @@ def judge(V, cases, relevant, stats, family='', keep_traces=None, isolation=None
                          'pipe': json.dumps(tr['pipe'], sort_keys=True), 'mode': tr['mode'],
                          'src': tr['src'], 'timescale': c.get('timescale'), 'untapped': True,
                          'multi': c.get('multi'), 'root': c.get('root', 'store'), 'dl_late': c.get('dl_late', False),
-                         'share_ops': c.get('share_ops', False), 'warmup': c.get('warmup'), 'reapply': c.get('reapply', False), 'store_split': c.get('store_split'), 'feedback': c.get('feedback'), 'source': c.get('source'), 'sibling': c.get('sibling', False),
+                         'share_ops': c.get('share_ops', False), 'warmup': c.get('warmup'), 'reapply': c.get('reapply', False), 'warmup_completes': c.get('warmup_completes', False), 'store_split': c.get('store_split'), 'feedback': c.get('feedback'), 'source': c.get('source'), 'sibling': c.get('sibling', False),
                          'clauses': ['untapped-differs']}, 'untapped-differs',
                         detail='without inner taps: end=%s out=%s' % (u['end'], json.dumps(ends(u)[0])[:300]))
             stats['untapped_differs'] = stats.get('untapped_differs', 0) + 1
@@ -304,6 +305,8 @@ def replay(prop, path, relevant):
         case['warmup'] = w['warmup']
     if w.get('reapply'):
         case['reapply'] = True
+    if w.get('warmup_completes'):
+        case['warmup_completes'] = True
     if w.get('store_split'):
         case['store_split'] = w['store_split']
     if w.get('feedback'):
